@@ -226,7 +226,11 @@ class Prop(PropBase):
             '(falsy / truthy non-mapping, unknown keys, non-mapping vars, empty map, empty file), '
             'pyproject.toml shapes (no tool / no tool.pypyr / empty / tool not a table); each run in '
             'a child process with its own sandbox, env and cwd, 6% in a fresh process through the '
-            'module singleton. non-trivial = an error, a skip, or at least one consulted file is a '
+            'module singleton; in 18% the environment when the Config object is built / pypyr.config is '
+            'imported differs from the one init() runs under (PYPYR_SKIP_INIT, PYPYR_CONFIG_GLOBAL, '
+            'PYPYR_CONFIG_LOCAL, XDG_*, and the constructor variables PYPYR_NO_CACHE / PYPYR_ENCODING / '
+            'PYPYR_CMD_ENCODING): expected = init under the run-time environment on the defaults of the '
+            'import-time one. non-trivial = an error, a skip, or at least one consulted file is a '
             'non-empty mapping; distinct by case hash')
     trusted_base = [
         'ruamel.yaml and tomllib are not modelled: a config file is represented by the value its '
@@ -262,6 +266,10 @@ class Prop(PropBase):
                 'all_props': ans['all_props'], 'dict_props': ans['dict_props']}
 
     def coq_model(self, case):
+        if 'import_env' in case:
+            # the object was built under import_env; init() runs under env
+            return (f'(init {coq_env(case["env"])} {coq_fs(case["files"])} '
+                    f'(defaults {coq_env(case["import_env"])}))')
         return f'(init_fresh {coq_env(case["env"])} {coq_fs(case["files"])})'
 
     def coq_check(self, case, obs):
@@ -287,7 +295,8 @@ class Prop(PropBase):
         def settings_of(o):
             return o['props']
 
-        # $PYPYR_SKIP_INIT skips all file look-ups
+        # $PYPYR_SKIP_INIT skips all file look-ups — the environment as it is when init() runs
+        # (case['env']); what it was when pypyr.config was imported (case['import_env']) is irrelevant
         if env_true(env.get('PYPYR_SKIP_INIT')):
             if res[0] != 'ok':
                 out.append(fail('skip-init', f'PYPYR_SKIP_INIT={env["PYPYR_SKIP_INIT"]!r} but init raised {res[1:]}',
@@ -306,6 +315,12 @@ class Prop(PropBase):
             if not (res[0] == 'err' and res[1] == 'ConfigError'):
                 out.append(fail('global-must-exist', f'PYPYR_CONFIG_GLOBAL={glob!r} does not exist but init '
                                                      f'gave {res[:2]}', 'global-missing-accepted'))
+            return out
+
+        if res[0] == 'ok' and res[1]['skip_init']:
+            out.append(fail('skip-init', f'PYPYR_SKIP_INIT is {env.get("PYPYR_SKIP_INIT")!r} when init() runs '
+                                         f'(at import: {case.get("import_env", env).get("PYPYR_SKIP_INIT")!r}) but '
+                                         f'init() skipped the config look-up', 'skipped-although-not-requested'))
             return out
 
         layers, toml_note = consulted(case)
@@ -429,6 +444,10 @@ class Prop(PropBase):
             tags.append('common:/etc/xdg')
         if case.get('fresh'):
             tags.append('fresh-process-singleton')
+        if 'import_env' in case:
+            tags.append('env-changed-after-import')
+            if env_true(case['import_env'].get('PYPYR_SKIP_INIT')) != env_true(env.get('PYPYR_SKIP_INIT')):
+                tags.append('skip-init-changed-after-import')
         if not env_true(env.get('PYPYR_SKIP_INIT')) and not env.get('PYPYR_CONFIG_GLOBAL'):
             paths = [p for p, _ in consulted(case)[0]]
             if len(set(paths)) < len(paths):
